@@ -381,6 +381,10 @@ ax('at1_takev', 'lib', [a, b, j], at1(takev(a, b), j) == at1(a, z3.ToInt(at1(b, 
 ax('len_takev', 'lib', [a, b], lenT(takev(a, b)) == lenT(b), [z3.MultiPattern(takev(a, b))], ['takev'], gen=dict(a='vec(n)', b='ivec(n)'))
 ax('at2_itake', 'lib', [a, b, i, j], at2(itake(a, b), i, j) == at1(a, z3.ToInt(at2(b, i, j))), [z3.MultiPattern(at2(itake(a, b), i, j))], ['itake', 'at2'])
 ax('at2_tr', 'lib', [a, i, j], at2(tr(a), i, j) == at2(a, j, i), [z3.MultiPattern(at2(tr(a), i, j))], ['tr', 'at2'], gen=dict(a='mat(n,d)', i='idx(d)', j='idx(n)'))
+slice0 = sym('slice0', (T, I), T, lambda a, n_: a[:int(n_)])           # a[:n]
+ax('at1_row', 'lib', [a, i, j], at1(row(a, i), j) == at2(a, i, j), [z3.MultiPattern(at1(row(a, i), j))], ['row', 'at1'], gen=dict(a='mat(n,d)', i='idx(n)', j='idx(d)'))
+ax('at1_slice0', 'lib', [a, n, j], z3.Implies(z3.And(j >= 0, j < n), at1(slice0(a, n), j) == at1(a, j)), [z3.MultiPattern(at1(slice0(a, n), j))], ['slice0', 'at1'],
+   gen=dict(a='vec(n)', n='idx(n)', j='idx(n)'))
 ax('array_equal_eq', 'def', [a, b], z3.Implies(array_equal(a, b), a == b), [z3.MultiPattern(array_equal(a, b))], ['array_equal'])
 # ---- math: positive definite matrices (Lean: lean/itml_rank_one.lean)
 ax('pd_quad_pos', 'math', [a, v], z3.Implies(z3.And(pd(a), nonzero(v)), dot(vm(v, a), v) > 0), [z3.MultiPattern(dot(vm(v, a), v))], ['dot', 'vm'],
